@@ -154,20 +154,25 @@ def d2_refusals(chk, repo):
     # uneven spacing inside the loop over the spatial dims
     oks = False
     dims_list = v.spec("[dim for dim in xa.dims if dim != 'vdims']")
-    for st in v.stmts():
-        if isinstance(st, ast.For) and v.eq(v.term(st.iter, at=st), dims_list) and v.cfg.dominates(v.cfg.node(st), v.cfg.node(first_build)):
-            i = each(v, dims_list)
-            for s2 in st.body:
-                if isinstance(s2, ast.If) and always_raises(s2.body):
-                    ct = v.ev.term(s2.test, at=s2)
-                    want = v.spec("xa[i].values.size > 1 and (not np.allclose(np.diff(xa[i].values), np.diff(xa[i].values).mean(), atol=0))", env={"i": i})
-                    oks = v.eq(ct, want)
-                    # a purely relative comparison: the absolute tolerance must be switched off (or scaled by the spacing)
-                    abs_tol = [a_ for a_ in v.ctx.all_atoms(ct) if v.ctx.atoms[a_][0][:2] == ("call", "np.allclose")
-                               and "atol" not in v.ctx.atoms[a_][0][3]]
-                    chk.ob("field.Field.from_xarray::spacing-test-is-scale-free", not abs_tol, "C17.D2",
-                           "np.allclose with its default absolute tolerance 1e-8 accepts ANY spacing for coordinates of the order of "
-                           "1e-9 (nanometre meshes): unevenly spaced coordinates would not be rejected", v.f, s2)
+    # (an element-wise guard loop `for i in dims: if bad(i): raise` is read as `if any(bad(i) for i in dims): raise`)
+    want = v.spec("any(xa[i].values.size > 1 and (not np.allclose(np.diff(xa[i].values), np.diff(xa[i].values).mean(), atol=0)) "
+                  "for i in D)", env={"D": dims_list})
+    ves = [r_ for r_, n_ in v.raises() if n_ == "ValueError"]
+    hit = [r_ for r_ in ves if v.cfg.dominates(v.cfg.node(v.cfg.parent[id(r_)][0]), v.cfg.node(first_build))
+           and v.cfg.parent.get(id(r_), (None,))[0] is not None
+           and v.eq(v.ev.term(v.cfg.parent[id(r_)][0].test, at=v.cfg.parent[id(r_)][0]), want)]
+    oks = bool(hit)
+    for r_ in ves:
+        par = v.cfg.parent.get(id(r_))
+        if par and isinstance(par[0], ast.If):
+            ct = v.ev.term(par[0].test, at=par[0])
+            if any(v.ctx.atoms[a_][0][:2] == ("call", "np.allclose") for a_ in v.ctx.all_atoms(ct)):
+                # a purely relative comparison: the absolute tolerance must be switched off (or scaled by the spacing)
+                abs_tol = [a_ for a_ in v.ctx.all_atoms(ct) if v.ctx.atoms[a_][0][:2] == ("call", "np.allclose")
+                           and "atol" not in v.ctx.atoms[a_][0][3]]
+                chk.ob("field.Field.from_xarray::spacing-test-is-scale-free", not abs_tol, "C17.D2",
+                       "np.allclose with its default absolute tolerance 1e-8 accepts ANY spacing for coordinates of the order of "
+                       "1e-9 (nanometre meshes): unevenly spaced coordinates would not be rejected", v.f, par[0])
     chk.ob("field.Field.from_xarray::refuses::uneven-spacing", oks, "C17.D2",
            "every spatial coordinate with more than one entry must be equally spaced (np.allclose of the differences with their mean)", v.f)
     okk = False
